@@ -49,8 +49,10 @@ impl UlpUtils {
             f64::NAN
         } else {
             let bits = value.to_bits();
-            let next_bits = if value >= 0.0 {
+            let next_bits = if value > 0.0 {
                 bits + 1
+            } else if value == 0.0 {
+                0x0000_0000_0000_0001u64 // smallest positive value, for +0.0 and -0.0 alike
             } else {
                 bits - 1
             };
